@@ -42,7 +42,10 @@ def settings_template(rng, ser, inners=("sq", "eu"), psi=True):
     else:
         pv = [0, 0, 0, 0]
     return {"s1": [[0]], "s2": [[0]], "inner": rng.choice(list(inners)), "w": rng.choice([0, 0, 1, 2]),
-            "pen": rng.choice([0, 0, 1]), "ms": 0, "md": 0, "mld": -1, "psi": pv}
+            "pen": rng.choice([0, 0, 1]),
+            # thresholds and the length limit as well: "the pairwise distances under the given settings"
+            "ms": rng.choice([0, 0, 0, 3]), "md": rng.choice([0, 0, 0, 5, 9]), "mld": rng.choice([-1, -1, -1, 1, 2]),
+            "psi": pv}
 
 
 def dm_pass(ctx, src, items, worker, env=None):
